@@ -150,10 +150,23 @@ func runC06(c *Check) {
 	}
 
 	// R3 membership guard + must reach notification
-	member := callEdge(true, -1, func(call *ssa.Call) bool {
+	fromSnapshot := func(v ssa.Value) bool { return derivesFromCall(v, "(*storage.TxRepository).GetUnconfirmed") != nil }
+	memberCall := callEdge(true, -1, func(call *ssa.Call) bool {
 		a := call.Call.Args
-		return len(a) == 2 && elem(a[0]) && derivesFromCall(a[1], "(*storage.TxRepository).GetUnconfirmed") != nil
+		return len(a) == 2 && elem(a[0]) && fromSnapshot(a[1])
 	}, "spynode.containsHash")
+	// the same membership test written in place (found-flag loop over the snapshot)
+	member := func(iff *ssa.If, br int) bool {
+		if memberCall(iff, br) {
+			return true
+		}
+		if iff.Block() == nil {
+			return false
+		}
+		cd := normCond(iff.Cond)
+		truth := (br == 0) != cd.Neg
+		return truth && cd.V != nil && inlineMembership(iff, cd.V, elem, fromSnapshot)
+	}
 	for _, u := range upd {
 		ok, w := mustPass(u.Instr, member)
 		c.Decide(ok, "R3", key+"#only-delivered-txs", u.Pos(), "edge-cutset", w,
